@@ -120,7 +120,9 @@ def analyse(F, b, params):
     nexts = calls_in(b, is_node_next)
     K.n_next = len(nexts)
     if len(nexts) != 1:
-        K.missing.append('ITEM(%d next sites)' % len(nexts))
+        buffered = [t for bi, t in calls_in(b, lambda t: t['callee'] == 'std::iter::Iterator::next') if
+                    any(re.search(r'::node::Node::(iter_out|iter_in|iter)$', c[1]) for c in term_calls(pv.of_operand(t['args'][0])))]
+        K.missing.append('ITEM(%d live next() sites on a node iterator%s)' % (len(nexts), '; edges are walked from a collected snapshot, not live' if buffered else ''))
         return K
     nbi, nt = nexts[0]
     K.sites['NEXT'] = nbi
